@@ -9,6 +9,7 @@ package gen
 
 //@ func (*Number).Reset
 //@   modifies n.I, n.Frac, n.Div, n.Exp, n.Neg, n.NegExp, n.BigBuf
+//@   ensures [C02 inv] NumInv(n)
 //@   ensures [C02 C07 reset] n.I == 0 && n.Frac == 0 && n.Div == 1 && n.Exp == 0 && !n.Neg && !n.NegExp && len(n.BigBuf) == 0
 
 //@ func (*Number).FillBig
@@ -17,20 +18,35 @@ package gen
 //@   ensures [C07 own] arrid(n.BigBuf) == old(arrid(n.BigBuf)) || fresh(n.BigBuf)
 
 //@ func (*Number).AddDigit
-//@   requires '0' <= b && b <= '9'
+//@   requires '0' <= b && b <= '9' && NumInv(n)
+//@   ensures [C02 inv] NumInv(n)
 //@   modifies n.I, n.BigBuf, heap(n.BigBuf)
 //@   ensures [C02 exact] len(n.BigBuf) == 0 ==> n.I == old(n.I)*10 + (b - '0') && n.I <= MaxInt64
 //@   ensures [C02 nolose] old(len(n.BigBuf)) > 0 ==> len(n.BigBuf) == old(len(n.BigBuf)) + 1
 //@   ensures [C02 int] old(len(n.BigBuf)) == 0 && old(n.I)*10 + (b - '0') <= MaxInt64 ==> len(n.BigBuf) == 0
 
+// While the number is held in the accumulators the divisor is a small power of ten (no uint64 operation can wrap).
+//@ pred NumInv(n) = len(n.BigBuf) == 0 ==> 1 <= n.Div && n.Div < BigLimit && n.Frac < n.Div && n.I <= MaxInt64 && n.Exp <= 1022
+
 //@ func (*Number).AddFrac
-//@   requires '0' <= b && b <= '9'
+//@   requires '0' <= b && b <= '9' && NumInv(n)
+//@   ensures [C02 inv] NumInv(n)
 //@   modifies n.Frac, n.Div, n.BigBuf, heap(n.BigBuf)
 //@   ensures [C02 exact] len(n.BigBuf) == 0 ==> n.Frac == old(n.Frac)*10 + (b - '0') && n.Div == old(n.Div)*10 && n.Frac <= MaxInt64
 //@   ensures [C02 nolose] old(len(n.BigBuf)) > 0 ==> len(n.BigBuf) == old(len(n.BigBuf)) + 1
 
 //@ func (*Number).AddExp
-//@   requires '0' <= b && b <= '9'
+//@   requires '0' <= b && b <= '9' && NumInv(n)
+//@   ensures [C02 inv] NumInv(n)
 //@   modifies n.Exp, n.BigBuf, heap(n.BigBuf)
 //@   ensures [C02 exact] len(n.BigBuf) == 0 ==> n.Exp == old(n.Exp)*10 + (b - '0') && n.Exp <= 1022
 //@   ensures [C02 nolose] old(len(n.BigBuf)) > 0 ==> len(n.BigBuf) == old(len(n.BigBuf)) + 1
+
+// A plain integer literal that fits int64 comes back as exactly that int64.
+//@ func (*Number).AsNum
+//@   requires NumInv(n)
+//@   modifies n.BigBuf, heap(n.BigBuf)
+//@   ensures [C02 int] old(len(n.BigBuf)) == 0 && old(n.Div) == 1 && old(n.Exp) == 0 && !n.ForceFloat
+//@        ==> isint64(num) && anyint(num) == (if old(n.Neg) then 0 - old(n.I) else old(n.I))
+//@   ensures [C02 int] old(len(n.BigBuf)) == 0 && old(n.Div) == 1 && old(n.Exp) == 0 && n.ForceFloat ==> isfloat64(num)
+//@   ensures [C02 kind] old(len(n.BigBuf)) == 0 && !(old(n.Div) == 1 && old(n.Exp) == 0) ==> isfloat64(num)
